@@ -45,6 +45,9 @@ def other(x):
     return "B" if x == "A" else "A"
 
 
+TEMP0 = "<oldest temporary account>"
+
+
 def actions_of(x, full=True):
     y = other(x)
     acts = []
@@ -54,6 +57,9 @@ def actions_of(x, full=True):
     for n in (OWN[x], SHARED, OWN[y]):
         for p in PW[x]:
             acts.append((x, "login", n, p))
+    # the name of the other client's oldest temporary account (made by an add without a session), if there is one:
+    # such accounts have no password and nobody can log into them
+    acts.append((x, "login", TEMP0, PW[x][0]))
     acts += [(x, "logout"), (x, "info")]
     for n in (OWN[x], SHARED):
         for p in PW[x]:
@@ -216,6 +222,11 @@ class World:
         x, kind = act[0], act[1]
         y = other(x)
         m = self.m
+        if kind == "login" and act[2] == TEMP0:
+            live = [t for t in m["temps"] if t in m["accounts"] and m["temp_creator"].get(t) == y]
+            if not live:
+                return None
+            act = (x, "login", live[0], act[3])
         before_foreign = self.foreign_docs(x)
         users_before = {d.get("username") for d in self.stub.db.docs(*USERS)}
         handover = None
@@ -346,6 +357,8 @@ class World:
 def touches_foreign_name(world, act):
     """does the action target a name currently held by an account of the other client (or contested before)?"""
     x, kind = act[0], act[1]
+    if kind == "login" and act[2] == TEMP0:
+        return True
     if kind in ("register", "login", "update"):
         acc = world.m["accounts"].get(act[2])
         return acc is not None and acc["creator"] != x
@@ -543,6 +556,7 @@ def worker(server_bin, spec):
             quick = spec["tier"] == "quick"
             if spec.get("mode") == "E3":
                 overlap(w, stats)
+                overlap_coinciding_keys(w, stats)
                 svc.check()
                 res.update({"violations": w.viol, "requests": w.requests, "states": stats["states"], "transitions": stats["transitions"],
                             "nontrivial": stats.get("windows_observed", 0), "outcomes": [], "wall": time.time() - t0, "capped": False,
@@ -946,6 +960,79 @@ def big_stable_code(mark, k=15):
     # self-supporting statements: 2^k candidates for the enumerate-and-check stable semantics, a single stable model
     nm = [mark] + ["w%d" % i for i in range(k)]
     return "".join("s(%s)." % x for x in nm) + "".join("ac(%s,%s)." % (x, x) for x in nm)
+
+
+def overlap_coinciding_keys(world, stats):
+    """accounts and problems whose (account name, problem name) pairs read alike when joined: account k with problem
+    m/big, account k/m with problem big. While the long computation of one runs, the other's solve request must be
+    accepted like any first solve request, and both end with their own answers."""
+    import urllib.parse
+    from harness import Client
+    w = world
+    w.restore(EMPTY)
+    users = {"A": ("k", "m/big"), "B": ("k/m", "big")}
+    cl = {}
+    for x in CLIENTS:
+        c = Client()
+        st, _ = c.register(users[x][0], "pw-" + x)
+        st2, _ = c.login(users[x][0], "pw-" + x)
+        w.requests += 2
+        if st2 // 100 != 2:
+            # the service does not take such an account name: nothing to explore
+            stats["coinciding_keys"] = "account name %r refused (%s/%s)" % (users[x][0], st, st2)
+            return
+        cl[x] = c
+    q = lambda name: urllib.parse.quote(name, safe="")
+    for x in CLIENTS:
+        st, body = cl[x].add(users[x][1], big_stable_code(MARK[x], 14), "Naive")
+        w.requests += 1
+        if st // 100 != 2:
+            stats["coinciding_keys"] = "problem name %r refused (%s)" % (users[x][1], st)
+            return
+        w.stub.wait_for(lambda: len(w.stub.bg_writes) >= 1, timeout=120.0, what="parse write")
+        w.stub.apply_bg(0)
+    for x in CLIENTS:
+        st, body = cl[x].get(q(users[x][1]))
+        w.requests += 1
+        if st // 100 != 2:
+            stats["coinciding_keys"] = "problem %r cannot be addressed in a path (%s)" % (users[x][1], st)
+            return
+    label = [("overlap", "account k / problem m/big and account k/m / problem big: B's first solve request while A's computation runs")]
+    st, body = cl["A"].solve(q(users["A"][1]), "Stable")
+    w.requests += 1
+    if st // 100 != 2:
+        raise MachineryError("cannot start the long computation (%s %s)" % (st, body[:80]))
+    stb, bodyb = cl["B"].solve(q(users["B"][1]), "Stable")
+    w.requests += 1
+    inside = len(w.stub.bg_writes) == 0
+    stats["transitions"] += 2
+    if inside:
+        stats["windows_observed"] = stats.get("windows_observed", 0) + 1
+        if stb // 100 != 2:
+            w.v("alone-equivalence", "B's first solve request for its own problem is answered %s %r while A's computation on a problem of another account runs (alone it is accepted)" % (stb, bodyb[:80]), label)
+        st, body = cl["B"].get(q(users["B"][1]))
+        w.requests += 1
+        if MARK["A"] in body:
+            w.v("leak:foreign-problem-in-response", "response to B contains A's problem", label)
+    n = 2 if stb // 100 == 2 else 1
+    w.stub.wait_for(lambda: len(w.stub.bg_writes) >= n, timeout=300.0, what="the result writes of the long computations")
+    for _ in range(n):
+        w.stub.apply_bg(0)
+    for x in CLIENTS:
+        st, body = cl[x].get(q(users[x][1]))
+        w.requests += 1
+        try:
+            d = json.loads(body)
+        except ValueError:
+            d = {}
+        stab = d.get("acs_per_strategy", {}).get("stable", {})
+        if x == "A" or stb // 100 == 2:
+            if stab.get("type") != "Some" or MARK[other(x)] in body:
+                w.v("alone-equivalence", "%s's problem does not hold its own stable models after both computations ended: %s" % (x, json.dumps(stab)[:120]), label)
+        if d.get("running_tasks") not in ([], None):
+            w.v("alone-equivalence", "%s's problem still lists running tasks %s after every computation ended" % (x, d.get("running_tasks")), label)
+    stats["states"] += 1
+    stats["coinciding_keys"] = "explored"
 
 
 def overlap(world, stats):
